@@ -152,15 +152,36 @@ func ruleNoSharedState(p *Prog, l *Ledger, tier string) {
 		sum := e.Sum[fn]
 		globalsRead.addAll(sum.GlobalsRead)
 		bad := 0
+		// effects already present in a callee are reported there (the lowest function in which the
+		// written memory turns out to be package-level state)
+		inCallee := map[string]bool{}
+		for _, b := range fn.Blocks {
+			for _, ins := range b.Instrs {
+				switch x := ins.(type) {
+				case ssa.CallInstruction:
+					callees, _ := p.Callees(fn, x)
+					for _, c := range callees {
+						if c == fn {
+							continue
+						}
+						for k := range e.Sum[c].Effects {
+							inCallee[k] = true
+						}
+					}
+				case *ssa.MakeClosure:
+					for k := range e.Sum[x.Fn.(*ssa.Function)].Effects {
+						inCallee[k] = true
+					}
+				}
+			}
+		}
 		for _, ef := range sortedEffects(sum.Effects) {
 			base := rootBase(ef.Root)
 			if strings.HasPrefix(base, "G:") || base == "U" {
-				// report at the function that contains the writing instruction only (callers inherit it)
-				if ef.Fn != name {
-					bad++
+				bad++
+				if inCallee[ef.key()] {
 					continue
 				}
-				bad++
 				l.Fail(rule, name, rule+"|"+name+"|"+base+"|"+ef.Loc, p.Pos(ef.Pos), "shared state written outside init: "+effDesc(p, ef))
 			}
 		}
